@@ -81,6 +81,8 @@ PROPS = {
         "statement": "Scenario.C12_thread_local_last (order part); thread placement by the trace model",
         "engines": [plan("tl,plan"), trace("tl,base,kf1", quick=60)],
         "aspects": TRACE,
+        "probes": [{"dir": "probes/not_send", "expect": "fail", "grep": "cannot be sent between threads safely", "why": "Dispatcher must not be Send (it may hold thread-local systems)"},
+                   {"dir": "probes/send_ok", "expect": "compile", "why": "SendDispatcher must be Send"}],
         "assumptions": [RAYON, "pool.install runs its closure on a pool worker when called from outside the pool"],
     },
     "C13": {
